@@ -250,6 +250,10 @@ func (g *gen) text() int {
 		g.lastText = mergeFirst + g.pick(mergeEnd-mergeFirst)
 		return g.lastText
 	}
+	if g.chance(15) { // resolvers that panic / fail at different response paths (fail.go)
+		g.lastText = failFirst + g.pick(failEnd-failFirst)
+		return g.lastText
+	}
 	if g.chance(16) { // introspection requests and requests that depend on what the schema declares (intro.go)
 		g.lastText = introFirst + g.pick(introEnd-introFirst)
 		switch x := g.pick(100); {
@@ -376,8 +380,11 @@ func (g *gen) varsMember() fj {
 		return fj{kind: 'o', kv: varSets[g.lastVars]}
 	default:
 		g.lastVars = g.pick(len(varSets))
-		if g.lastText >= introFirst && g.chance(70) {
-			g.lastVars = introVarFirst + g.pick(len(varSets)-introVarFirst)
+		if g.lastText >= introFirst && g.lastText < introEnd && g.chance(70) {
+			g.lastVars = introVarFirst + g.pick(failVarFirst-introVarFirst)
+		}
+		if g.lastText >= failFirst && g.lastText < failEnd && g.chance(80) {
+			g.lastVars = failVarFirst + g.pick(len(varSets)-failVarFirst)
 		}
 		return fj{kind: 'o', kv: varSets[g.lastVars]}
 	}
@@ -577,6 +584,9 @@ func (g *gen) getRequest() *rq {
 		op = g.opMember(ti).s
 	}
 	g.lastVars = g.pick(len(varSets))
+	if g.lastText >= failFirst && g.lastText < failEnd && g.chance(80) {
+		g.lastVars = failVarFirst + g.pick(len(varSets)-failVarFirst)
+	}
 	vv, venc := mapArg(g, varSets[g.lastVars])
 	var ekv []kvp
 	lk, rgs := "", ""
